@@ -45,6 +45,7 @@ fn main() {
     }
     let code = match args[1].as_str() {
         "case" => mc::replay::adhoc(&args[2..]),
+        "dump-classes" => mc::v8x::dump_classes(&args[2]),
         "dump-cases" => mc::v8x::dump(&args[2], args[3].parse().unwrap(), args[4].parse().unwrap(), &args[5]),
         "C01" => sweep_cmd(Prop::C01, &["core", "capback", "vset", "dupref", "look", "nest", "nestlook", "utf8", "icase", "lit", "onechar", "named", "mods"]),
         "C02" => sweep_cmd(Prop::C02, &["core", "capback", "vset", "dupref", "look", "nest", "nestlook", "utf8", "icase", "lit", "onechar", "named", "mods"]),
